@@ -52,9 +52,9 @@ func (x *Exec) term(v Value) Term {
 		}
 		x.fail("address %s used as a first-class value", v)
 	case *Closure:
-		return x.u.W.Const(fmt.Sprintf("closure.%s", v.Fn.Name()), SFn)
+		return x.u.closureConst(v, x)
 	case *FuncRef:
-		return x.u.W.Const("fn."+v.Fn.String(), SFn)
+		return x.u.closureConst(&Closure{Fn: v.Fn}, x)
 	case poison:
 		x.fail("value of %s differs across paths at meta level", v.what)
 	case Tuple:
